@@ -52,6 +52,27 @@ META = {
     "C18-hash-closed-flag-after-alloc": ("C18", "hash marked closed only after the string allocation; needs that allocation to fail and a later query"),
     "C19-sem-wait-eintr-wrong-getter": ("C19", "sem_wait retry compares the mapped IPC error with EINTR; needs a handled signal while blocked"),
     "C20-ini-param-allocated-without-section": ("C20", "parameter allocated even when no section is open; needs key=value lines before the first section"),
+    # ---- round 3 ----
+    "C01-sync-lock-val-cas": ("C01", "sync spinlock model: lock loops on __sync_val_compare_and_swap (old value) instead of the boolean CAS; needs a contended lock in a sync-model build"),
+    "C02-posix-reader-trylock-takes-write": ("C02", "reader_trylock wired to pthread_rwlock_trywrlock; needs two overlapping readers, one through trylock"),
+    "C03-wait-filters-wakeups-by-shared-flag": ("C03", "wait loops on a flag shared by all waiters and re-armed by each new waiter; needs a second thread entering wait between the wake-up and the woken thread's re-acquisition"),
+    "C04-c11-pointer-add-32bit": ("C04", "p_atomic_pointer_add selects the 4-byte builtin through a misspelt macro; needs a value or carry beyond 32 bits"),
+    "C05-replace-local-guards-new-value": ("C05", "replace_local tests the new value instead of the old one before calling the notifier; needs a replace by NULL or a first use on a key with a notifier"),
+    "C06-acquire-no-eintr-retry": ("C06", "p_semaphore_acquire no longer retries sem_wait on EINTR; needs a handled signal while blocked"),
+    "C07-created-flag-set-at-end": ("C07", "shm_created set only at the end of create_handle; needs ftruncate/mmap/semaphore creation to fail after the exclusive create"),
+    "C08-reported-size-from-larger-argument": ("C08", "p_shm_new reports the opener's size whenever it is non-zero; needs a second handle opened with a larger size"),
+    "C09-accept-wouldblock-compares-errno": ("C09", "accept's would-block retry compares the native errno with the library's error enum; needs EAGAIN from accept after a positive poll (racing acceptors)"),
+    "C10-accept-cloexec-via-setfl": ("C10", "accepted descriptor gets FD_CLOEXEC through F_SETFL instead of F_SETFD; needs an exec after an accept"),
+    "C11-sha256-fill-test-narrowed": ("C11", "SHA-256 fill test compares (puint32) len; needs a buffered partial block followed by one update of >= 2^32 bytes"),
+    "C12-bst-remove-value-copied-not-swapped": ("C12", "BST two-children removal copies the value up without swapping it down; needs a value notifier and a two-children removal"),
+    "C13-avl-balance-factor-plain-char": ("C13", "balance_factor declared plain char; needs a platform or build where char is unsigned"),
+    "C14-clear-value-guard-copied": ("C14", "p_tree_clear guards the value notifier with the key notifier; needs a tree with exactly one notifier and a clear/free"),
+    "C15-reverse-single-returns-null": ("C15", "p_list_reverse returns NULL for a one-element list; needs a list of exactly one element"),
+    "C16-list-getter-flushes-empty-words": ("C16", "list getter emits a token at every blank; needs two blanks in a row or a blank after the brace"),
+    "C17-to-native-clears-before-length-check": ("C17", "to_native clears the whole sockaddr_in before testing destlen; needs a destination shorter than sockaddr_in"),
+    "C18-ini-section-finished-before-alloc-check": ("C18", "previous section freed/linked before the p_strchomp result is tested; needs that allocation to fail on a 2nd or later header"),
+    "C19-sleep-loop-exits-on-eintr-value": ("C19", "sleep loop continues only while result == -1; needs clock_nanosleep returning EINTR"),
+    "C20-close-retried-on-eintr": ("C20", "p_sys_close retries close() on EINTR on every UNIX; needs close interrupted by a signal"),
     "C20-shm-name-left-on-failed-create": ("C20", "shm_created set only after mmap succeeded; needs ftruncate/mmap to fail after the exclusive create (size 0 or huge)"),
 }
 
